@@ -5,15 +5,15 @@
 // executor) pool workers are managed threads; the harness picks who runs next at every mutex acquisition / Yield from a
 // seeded PRNG or from an enumerated schedule. One case = one generated workload + one schedule.
 //
-//  correspondence: every critical section of c.mux / t.asyncMux (attributed to the operation in progress on the acquiring
-//          thread) and every job start / end becomes one action of the Coq LTS (Serializer.v: instance 0 = ConnV, instance
-//          1 = AsyncV), in the order in which it happened. Compared: Execute's return value, whether the submission started
-//          a drainer, the job the drainer starts, whether the drainer returns, ExecuteLen, len and cap of the list after
-//          every critical section, the start order and quiescence at the end.
-//  oracle (implementation alone): no two jobs of a connection overlap; jobs start in the order in which their
-//          submissions took the mutex, each accepted one exactly once; Execute returns false exactly when its critical
-//          section comes after Close's and a refused job never runs; MustExecute jobs always run; jobs after a panicking
-//          job still run; nothing is stuck, no second drainer, the lists are empty at the end. The same for Async.
+//	correspondence: every critical section of c.mux / t.asyncMux (attributed to the operation in progress on the acquiring
+//	        thread) and every job start / end becomes one action of the Coq LTS (Serializer.v: instance 0 = ConnV, instance
+//	        1 = AsyncV), in the order in which it happened. Compared: Execute's return value, whether the submission started
+//	        a drainer, the job the drainer starts, whether the drainer returns, ExecuteLen, len and cap of the list after
+//	        every critical section, the start order and quiescence at the end.
+//	oracle (implementation alone): no two jobs of a connection overlap; jobs start in the order in which their
+//	        submissions took the mutex, each accepted one exactly once; Execute returns false exactly when its critical
+//	        section comes after Close's and a refused job never runs; MustExecute jobs always run; jobs after a panicking
+//	        job still run; nothing is stuck, no second drainer, the lists are empty at the end. The same for Async.
 package main
 
 import (
@@ -152,8 +152,8 @@ type ctxEntry struct {
 type recorder struct {
 	acts      []*act
 	ctx       map[int][]*ctxEntry
-	pending   map[int]map[int]*act   // thread -> inst -> critical section in progress
-	asyncDr   map[int]*drainerRec    // async drainer by thread
+	pending   map[int]map[int]*act // thread -> inst -> critical section in progress
+	asyncDr   map[int]*drainerRec  // async drainer by thread
 	running   [2]int
 	starts    [2][]int
 	startCnt  [2]map[int]int
@@ -589,7 +589,7 @@ func runCase(cs caseSpec, pick func(step int, enabled []int) int) *result {
 		s.Go("backlog", func() {
 			e := &ctxEntry{kind: "asubmit", inst: 1, j: 20000}
 			rc.push(e)
-				g.Async(func() {
+			g.Async(func() {
 				rc.jobStart(1, 20000)
 				verifsched.WaitUntil(func() bool { return gate })
 				rc.jobEnd(1, 20000, false)
